@@ -35,7 +35,7 @@ ASSUMPTIONS = [
     "atol=1e-8; selections only if the maximum is unique by > 1e-6",
 ]
 PROFILE = {
-    "quick": dict(examples=1600, shards=16, budget_s=80),
+    "quick": dict(examples=2000, shards=16, budget_s=80),
     "thorough": dict(examples=9000, shards=16, budget_s=1100),
 }
 
